@@ -411,6 +411,8 @@ def raw_expected_layout(schema, wire, names):
         L = wire.layout(n)
         for bi, block in enumerate(L.blocks):
             cont = n if bi == 0 else '%s::part%d' % (n, bi + 1)
+            if bi:
+                exp[('P', cont)] = (None, L.block_align[bi])     # prophy::cast aligns a part by its alignof
             for f, off in zip(block, L.offsets[bi]):
                 m = f.member
                 if f.role == 'counter':
@@ -430,8 +432,8 @@ def raw_layout_driver_source(schema, wire, names, name='sch'):
     exp = raw_expected_layout(schema, wire, names)
     lines = ['#include <cstdio>', '#include <cstddef>', '#include "%s.pp.hpp"' % name, 'int main()', '{']
     for key in exp:
-        if key[0] == 'S':
-            lines.append('    printf("S %s %%zu %%zu\\n", sizeof(%s), (size_t)__alignof__(%s));' % (key[1], key[1], key[1]))
+        if key[0] in ('S', 'P'):
+            lines.append('    printf("%s %s %%zu %%zu\\n", sizeof(%s), (size_t)__alignof__(%s));' % (key[0], key[1], key[1], key[1]))
         else:
             lines.append('    printf("M %s %s %%zu\\n", (size_t)__builtin_offsetof(%s, %s));' % (key[1], key[2], key[1], key[2]))
     lines += ['    return 0;', '}']
@@ -444,8 +446,8 @@ def parse_layout_output(text):
         a = ln.split()
         if not a:
             continue
-        if a[0] == 'S':
-            got[('S', a[1])] = (int(a[2]), int(a[3]))
+        if a[0] in ('S', 'P'):
+            got[(a[0], a[1])] = (int(a[2]), int(a[3]))
         elif a[0] == 'M':
             got[('M', a[1], a[2])] = int(a[3])
     return got
